@@ -102,8 +102,8 @@ class TUnion(T):
 
 class TFunc(T):
     """a function value: module function, or method bound to `recv` (a symbolic value)"""
-    def __init__(self, qual, recv=None):
-        self.qual, self.recv = qual, recv
+    def __init__(self, qual, recv=None, recv_field=None):
+        self.qual, self.recv, self.recv_field = qual, recv, recv_field   # recv_field: bound to <holder>.<recv_field>
 
     def __repr__(self):
         return 'Func(%s)' % self.qual
@@ -172,6 +172,8 @@ def join(a, b):
         return a
     if isinstance(b, TOpt) and strip_opt(a) == b.t:
         return b
+    if isinstance(a, TCls) and isinstance(b, TCls):
+        return TCls(None)
     return ANY
 
 
